@@ -221,6 +221,11 @@ func (s *OperationProcessor) applyResolutionOptions(uniqueSuffix string, publish
 	unpublished = append([]*operation.AnchoredOperation{}, unpublished...)
 
 	for _, op := range opts.AdditionalOperations {
+		if op.UniqueSuffix != "" && op.UniqueSuffix != uniqueSuffix {
+			// an operation of another DID has no say in this one
+			continue
+		}
+
 		if op.CanonicalReference == "" {
 			unpublished = append(unpublished, op)
 		} else if _, ok := canonicalIds[op.CanonicalReference]; !ok {
